@@ -23,7 +23,8 @@ type Interner struct {
 func NewInterner() *Interner {
 	in := &Interner{m: map[string]int{}, strs: []string{""}}
 	in.m[""] = 0
-	in.Tok("master key is mismatched") // = 1, Fsm/Actions.tok_mismatch
+	in.Tok("master key is mismatched")        // = 1, Fsm/Actions.tok_mismatch
+	in.Tok("public polynomial is mismatched") // = 2, Fsm/Actions.tok_poly_mismatch
 	return in
 }
 
